@@ -311,6 +311,40 @@ def _replay(job, phase):
                 else:
                     continue
                 break
+    # ---------------------------------------------------------------- adaptive decision x random variable must be rejected
+    # (dro.py ro_to_roc: a decision that is affinely adaptive may not be multiplied by a random variable - the product
+    # would be quadratic in z; the model must refuse to formulate, not compile something else)
+    phase[0] = 'product'
+    if any_aff and job.get('tidx', 0) % 2 == 0:
+        target = [(v, i) for v in range(len(sizes)) for i in range(sizes[v]) if rec['decl'][v][i]]
+        if target:
+            v, i = target[len(hist) % len(target)]
+            mC = _new_model(ns, labels)
+            zC = mC.rvar(nr)
+            xC = [mC.dvar(sizes[q], vtypes[q]) for q in range(len(sizes))]
+            slC = []
+            for step in hist:
+                _apply(step, xC, zC, slC, labels, ns)
+            fC = mC.ambiguity()
+            fC.suppset(zC <= 1, zC >= -1)
+            mC.minsup(E(sum(x.sum() for x in xC)), fC)
+            for q in range(len(sizes)):
+                mC.st(xC[q] >= -1, xC[q] <= 1)
+            accepted = None
+            try:
+                mC.st(xC[v][i] * zC[0] <= 5)
+                mC.solve(display=False)
+                accepted = 'solved' if mC.solution is not None else 'formulated'
+            except Exception as e:
+                import traceback
+                if not any('/rsome/' in fr.filename for fr in traceback.extract_tb(e.__traceback__)):
+                    raise
+            if accepted:
+                findings.append(dict(sig='C13:adaptive-times-random-accepted', prop='C13',
+                                     what='x[%d][%d] is affinely adaptive (declared %s) and x*z[0] <= 5 was %s instead of being rejected' % (v + 1, i, rec['decl'][v][i], accepted),
+                                     hist=hist))
+            else:
+                notes.append('product-rejected')
     return dict(findings=findings, drift=drift, notes=notes, hsig=hsig, solved=True, outs=outs,
                 objA=objA)
 
